@@ -160,6 +160,16 @@ int main(int argc, char **argv) {
         rc = sc == 33 ? _wcsnatcmp_s_chk(L"file10", 10, ffi, 9, 1, &r, (size_t)-1, (size_t)-1) : _wcsnatcmp_s_chk(ffi, 9, L"FILE9", 10, 1, &r, (size_t)-1, (size_t)-1);
         failure = rc != 0; cleared = 1;
     } break;
+    case 35: case 36: case 37: case 38: case 39: case 40: { /* heap scratch (long plain part) and the sequence buffers of the reorder / compose steps (long mark run) live together */
+        rsize_t len = 0;
+        int marks = (sc % 2) ? 13 : 23;
+        int mode = sc <= 36 ? WCSNORM_NFD : sc <= 38 ? WCSNORM_NFC : WCSNORM_FCC;
+        for (i = 0; i < 110; i++) wsrc[i] = L'a' + i % 26;
+        for (i = 110; i < 110 + marks; i++) wsrc[i] = (i % 2) ? 0x0301 : 0x0323;
+        wsrc[110 + marks] = L'z';
+        wsrc[111 + marks] = 0;
+        rc = wcsnorm_s(wdest, 400, wsrc, mode, &len); failure = rc != 0; cleared = wdest[0] == 0;
+    } break;
     default: fprintf(stderr, "unknown scenario\n"); return 2;
     }
     armed = 0;
